@@ -1,0 +1,93 @@
+//go:build verif
+
+package dsp
+
+// amd64 part of the C13 hooks: the SSE2 and the AVX2 routines individually,
+// independent of what the CPU probe selected.  The call-time dispatched
+// ("Direct") entry points are run with hasAVX2 forced (restored afterwards;
+// the harness is single-threaded while it uses these).
+
+func verifWithAVX2(v bool, f func()) {
+	old := hasAVX2
+	hasAVX2 = v
+	defer func() { hasAVX2 = old }()
+	f()
+}
+
+func verifArchForced(name string, avx2 bool) VerifArchKernels {
+	k := VerifArchKernels{
+		Name:          name,
+		FTransform2:   fTransform2, // Init() leaves the Go version unless AVX2 is present
+		TransformWHT:  transformWHTSSE2,
+		FTransformWHT: fTransformWHTSSE2,
+		SSE4x4:        sse4x4SSE2,
+		PredLuma16:    [4]func([]byte, int){dc16SSE2, tm16SSE2, ve16SSE2, he16SSE2},
+		PredChroma8:   [4]func([]byte, int){dc8uvSSE2, tm8uvSSE2, ve8uvSSE2, he8uvSSE2},
+		ITransformDirect: func(ref []byte, in []int16, dst []byte, doTwo bool) {
+			verifWithAVX2(avx2, func() { ITransformDirect(ref, in, dst, doTwo) })
+		},
+		FTransformDirect: func(src, ref []byte, out []int16) {
+			verifWithAVX2(avx2, func() { FTransformDirect(src, ref, out) })
+		},
+		PredLuma16Direct:  PredLuma16Direct,
+		PredChroma8Direct: PredChroma8Direct,
+		SimpleVFilter16: func(p []byte, base, stride, thresh int) {
+			verifWithAVX2(avx2, func() { SimpleVFilter16(p, base, stride, thresh) })
+		},
+		SSE4x4Direct: SSE4x4Direct,
+		SSE16x16Direct: func(a, b []byte) (r int) {
+			verifWithAVX2(avx2, func() { r = SSE16x16Direct(a, b) })
+			return
+		},
+		TDisto4x4: func(a, b []byte) (r int) {
+			verifWithAVX2(avx2, func() { r = TDisto4x4(a, b) })
+			return
+		},
+		TDisto16x16: func(a, b []byte) (r int) {
+			verifWithAVX2(avx2, func() { r = TDisto16x16(a, b) })
+			return
+		},
+		UpsampleLinePairNRGBA: func(topY, botY, topU, topV, botU, botV, topDst, botDst, alphaTop, alphaBot []byte, width int) {
+			verifWithAVX2(avx2, func() {
+				UpsampleLinePairNRGBA(topY, botY, topU, topV, botU, botV, topDst, botDst, alphaTop, alphaBot, width)
+			})
+		},
+	}
+	if avx2 {
+		k.Transform = transformTwoDecAVX2
+		k.TransformUV = transformUVAVX2
+		k.ITransform = iTransformAVX2
+		k.FTransform = fTransformAVX2
+		k.FTransform2 = fTransform2AVX2
+		k.SSE16x16 = sse16x16AVX2
+		k.AddGreenToBlueAndRed = addGreenToBlueAndRedAVX2
+		k.SubtractGreen = subtractGreenAVX2
+	} else {
+		k.Transform = transformTwoDecSSE2
+		k.TransformUV = transformUVSSE2
+		k.ITransform = iTransformSSE2
+		k.FTransform = fTransformSSE2
+		k.SSE16x16 = sse16x16SSE2
+		k.AddGreenToBlueAndRed = addGreenToBlueAndRedSSE2
+		k.SubtractGreen = subtractGreenSSE2
+	}
+	return k
+}
+
+// VerifArchVariants returns the architecture-specific implementations that can
+// run on this machine: always "sse2", and "avx2" when the CPU has it.
+func VerifArchVariants() []VerifArchKernels {
+	vs := []VerifArchKernels{verifArchForced("sse2", false)}
+	if hasAVX2 {
+		vs = append(vs, verifArchForced("avx2", true))
+	}
+	return vs
+}
+
+// VerifArchSetAVX2 overrides the CPU probe result (only ever to switch AVX2
+// off, or back to the probed value) and returns the previous value.
+func VerifArchSetAVX2(v bool) bool {
+	old := hasAVX2
+	hasAVX2 = v && cpuidAVX2Check()
+	return old
+}
